@@ -401,6 +401,204 @@ func outer(fset *token.FileSet, name string, fn *ast.FuncDecl, applyFuns []strin
 	return outerShape{rec, incl, kept}
 }
 
+// ---------- the decodability gate of commit (3d753d4) ----------
+
+type gateShape struct {
+	recognised  bool
+	pos         string // absent | beforeLoop | afterLoop
+	errReturned bool
+}
+
+func paramObj(fn *ast.FuncDecl, name string) *ast.Object {
+	if fn == nil || fn.Type.Params == nil {
+		return nil
+	}
+	for _, f := range fn.Type.Params.List {
+		for _, id := range f.Names {
+			if id.Name == name {
+				return id.Obj
+			}
+		}
+	}
+	return nil
+}
+
+func callsOf(fset *token.FileSet, n ast.Node, fun string) []*ast.CallExpr {
+	var l []*ast.CallExpr
+	ast.Inspect(n, func(x ast.Node) bool {
+		if c, ok := x.(*ast.CallExpr); ok && exprStr(fset, c.Fun) == fun {
+			l = append(l, c)
+		}
+		return true
+	})
+	return l
+}
+
+func argObj(c *ast.CallExpr, i int) *ast.Object {
+	if c == nil || i >= len(c.Args) {
+		return nil
+	}
+	if id, ok := c.Args[i].(*ast.Ident); ok {
+		return id.Obj
+	}
+	return nil
+}
+
+// gateIf recognises `if err := checkDecodable(<x>); err != nil { ... }` (no else).
+func gateIf(fset *token.FileSet, st ast.Stmt) (*ast.IfStmt, *ast.CallExpr) {
+	ifs, ok := st.(*ast.IfStmt)
+	if !ok || ifs.Init == nil || ifs.Else != nil || exprStr(fset, ifs.Cond) != "err != nil" {
+		return nil, nil
+	}
+	as, ok := ifs.Init.(*ast.AssignStmt)
+	if !ok || as.Tok != token.DEFINE || len(as.Lhs) != 1 || len(as.Rhs) != 1 || exprStr(fset, as.Lhs[0]) != "err" {
+		return nil, nil
+	}
+	call, ok := as.Rhs[0].(*ast.CallExpr)
+	if !ok || exprStr(fset, call.Fun) != "checkDecodable" {
+		return nil, nil
+	}
+	return ifs, call
+}
+
+// submitter checks LogPin / LogUnpin: op := cc.op(ctx, pin, <typ>); err := cc.commit(ctx, op, ...);
+// if err != nil { return err }.
+func submitter(fset *token.FileSet, fn *ast.FuncDecl, typ string) bool {
+	if fn == nil || fn.Body == nil {
+		return false
+	}
+	var opObj *ast.Object
+	okOp, okCommit, okRet := false, false, false
+	for i, st := range fn.Body.List {
+		as, ok := st.(*ast.AssignStmt)
+		if !ok || len(as.Rhs) != 1 || len(as.Lhs) != 1 {
+			continue
+		}
+		call, ok := as.Rhs[0].(*ast.CallExpr)
+		if !ok {
+			continue
+		}
+		switch exprStr(fset, call.Fun) {
+		case "cc.op":
+			if id, ok := as.Lhs[0].(*ast.Ident); ok && len(call.Args) == 3 && exprStr(fset, call.Args[2]) == typ {
+				opObj, okOp = id.Obj, true
+			}
+		case "cc.commit":
+			if exprStr(fset, as.Lhs[0]) == "err" && opObj != nil && argObj(call, 1) == opObj {
+				okCommit = true
+				if i+1 < len(fn.Body.List) {
+					if ifs, ok := fn.Body.List[i+1].(*ast.IfStmt); ok && exprStr(fset, ifs.Cond) == "err != nil" &&
+						len(ifs.Body.List) == 1 && len(returnsOf(ifs.Body.List[0])) == 1 &&
+						exprStr(fset, returnsOf(ifs.Body.List[0])[0]) == "err" {
+						okRet = true
+					}
+				}
+			}
+		}
+	}
+	return okOp && okCommit && okRet
+}
+
+func gate(fset *token.FileSet, fn *ast.FuncDecl, fns, top map[string]*ast.FuncDecl, fs *facts) gateShape {
+	p := "commit.gate."
+	if fn == nil || fn.Body == nil {
+		fs.add(p+"commit found", false)
+		return gateShape{pos: "absent"}
+	}
+	rec := true
+	opObj := paramObj(fn, "op")
+	rec = fs.add(p+"commit has a parameter `op`", opObj != nil) && rec
+	all := callsOf(fset, fn.Body, "checkDecodable")
+	rec = fs.add(p+"`checkDecodable` is called exactly once in commit", len(all) == 1) && rec
+	loopIdx, gateIdx, ngates := -1, -1, 0
+	var gif *ast.IfStmt
+	var gcall *ast.CallExpr
+	for i, st := range fn.Body.List {
+		if _, ok := st.(*ast.ForStmt); ok && loopIdx < 0 {
+			loopIdx = i
+		}
+		if ifs, call := gateIf(fset, st); ifs != nil {
+			gif, gcall, gateIdx = ifs, call, i
+			ngates++
+		}
+	}
+	rec = fs.add(p+"the call is the init of a top-level, unconditional `if err := checkDecodable(...); err != nil { ... }`", ngates == 1) && rec
+	rec = fs.add(p+"its argument is commit's `op` parameter", gcall != nil && opObj != nil && argObj(gcall, 0) == opObj) && rec
+	applies := callsOf(fset, fn.Body, "cc.consensus.CommitOp")
+	rec = fs.add(p+"the loop's CommitOp applies that same `op`", len(applies) == 1 && opObj != nil && argObj(applies[0], 0) == opObj) && rec
+	reassigned := false
+	ast.Inspect(fn.Body, func(x ast.Node) bool {
+		if as, ok := x.(*ast.AssignStmt); ok {
+			for _, l := range as.Lhs {
+				if id, ok := l.(*ast.Ident); ok && id.Obj == opObj && opObj != nil {
+					reassigned = true
+				}
+			}
+		}
+		return true
+	})
+	rec = fs.add(p+"`op` is never reassigned in commit", !reassigned) && rec
+	pos := "absent"
+	if gif != nil && loopIdx >= 0 {
+		if gateIdx < loopIdx {
+			pos = "beforeLoop"
+		} else {
+			pos = "afterLoop"
+		}
+	}
+	fs.add(p+"it stands before the retry loop (nothing is attempted for a refused operation)", pos == "beforeLoop")
+	errRet := false
+	if gif != nil {
+		errRet = len(gif.Body.List) > 0 && len(returnsOf(lastStmt(gif.Body))) == 1 &&
+			everyReturn(fset, gif.Body, []string{"*"})
+	}
+	fs.add(p+"its body ends in `return <non-nil error>`", errRet)
+	rec = fs.add("LogPin.`op := cc.op(ctx, pin, LogOpPin); err := cc.commit(ctx, op, ...); if err != nil { return err }`", submitter(fset, fns["LogPin"], "LogOpPin")) && rec
+	rec = fs.add("LogUnpin.`op := cc.op(ctx, pin, LogOpUnpin); err := cc.commit(ctx, op, ...); if err != nil { return err }`", submitter(fset, fns["LogUnpin"], "LogOpUnpin")) && rec
+	// checkDecodable itself: encode with a msgpack handle, decode into a fresh LogOp, return the decoder's error
+	cd := top["checkDecodable"]
+	cdOK := false
+	if cd != nil && cd.Body != nil {
+		enc := callsOf(fset, cd.Body, "codec.NewEncoder")
+		dec := callsOf(fset, cd.Body, "codec.NewDecoder")
+		res := returnsOf(lastStmt(cd.Body))
+		if len(enc) == 1 && len(dec) == 1 && len(res) == 1 {
+			if c, ok := res[0].(*ast.CallExpr); ok {
+				if sel, ok := c.Fun.(*ast.SelectorExpr); ok && sel.Sel.Name == "Decode" && len(c.Args) == 1 {
+					if inner, ok := sel.X.(*ast.CallExpr); ok && inner == dec[0] {
+						if u, ok := c.Args[0].(*ast.UnaryExpr); ok && u.Op == token.AND {
+							if cl, ok := u.X.(*ast.CompositeLit); ok && exprStr(fset, cl.Type) == "LogOp" && len(cl.Elts) == 0 {
+								cdOK = true
+							}
+						}
+					}
+				}
+			}
+		}
+		// the encoder's error is returned too, and it encodes the parameter
+		encOK := false
+		for i, st := range cd.Body.List {
+			as, ok := st.(*ast.AssignStmt)
+			if !ok || len(as.Rhs) != 1 {
+				continue
+			}
+			if c, ok := as.Rhs[0].(*ast.CallExpr); ok {
+				if sel, ok := c.Fun.(*ast.SelectorExpr); ok && sel.Sel.Name == "Encode" && argObj(c, 0) == paramObj(cd, "op") && paramObj(cd, "op") != nil {
+					if i+1 < len(cd.Body.List) {
+						if ifs, ok := cd.Body.List[i+1].(*ast.IfStmt); ok && exprStr(fset, ifs.Cond) == "err != nil" &&
+							len(ifs.Body.List) == 1 && len(returnsOf(ifs.Body.List[0])) == 1 && exprStr(fset, returnsOf(ifs.Body.List[0])[0]) == "err" {
+							encOK = true
+						}
+					}
+				}
+			}
+		}
+		cdOK = cdOK && encOK
+	}
+	rec = fs.add("checkDecodable.encodes its `op` with codec (error returned) and returns `codec.NewDecoder(...).Decode(&LogOp{})`", cdOK) && rec
+	return gateShape{rec, pos, errRet}
+}
+
 func main() {
 	repo := os.Getenv("VERIF_REPO")
 	if repo == "" {
@@ -414,9 +612,12 @@ func main() {
 		os.Exit(1)
 	}
 	fns := map[string]*ast.FuncDecl{}
+	top := map[string]*ast.FuncDecl{}
 	for _, d := range file.Decls {
 		if fd, ok := d.(*ast.FuncDecl); ok && fd.Recv != nil {
 			fns[fd.Name.Name] = fd
+		} else if ok {
+			top[fd.Name.Name] = fd
 		}
 	}
 	fs := &facts{}
@@ -424,6 +625,7 @@ func main() {
 	c := outer(fset, "commit", fns["commit"], []string{"cc.consensus.CommitOp"}, fs)
 	a := outer(fset, "AddPeer", fns["AddPeer"], []string{"cc.raft.AddPeer"}, fs)
 	m := outer(fset, "RmPeer", fns["RmPeer"], []string{"cc.raft.RemovePeer"}, fs)
+	g := gate(fset, fns["commit"], fns, top, fs)
 
 	var b strings.Builder
 	b.WriteString("/- GENERATED by harness/extract_c01 from consensus/raft/consensus.go (go/ast). Do not edit. -/\n")
@@ -435,6 +637,7 @@ func main() {
 	}{{"commitShape", c}, {"addPeerShape", a}, {"rmPeerShape", m}} {
 		fmt.Fprintf(&b, "def %s : OuterShape := { recognised := %s, inclusive := %s, applyKept := %s }\n", x.n, boolLean(x.s.recognised), boolLean(x.s.inclusive), boolLean(x.s.applyKept))
 	}
+	fmt.Fprintf(&b, "def gateShape : GateShape := { recognised := %s, pos := .%s, errReturned := %s }\n", boolLean(g.recognised), g.pos, boolLean(g.errReturned))
 	b.WriteString("\n/-- the individual observations behind the shapes -/\ndef facts : List (String × Bool) := [\n")
 	for i, f := range fs.l {
 		sep := ","
